@@ -345,7 +345,7 @@ pub fn run(ctx: &Ctx) {
          or >= 2 messages on one stream; distinct = hash(adapter, fault, stream, schedule)",
     );
     ctx.assume("embedded-io forbids write() returning Ok(0) for non-empty input, so the eio writer double reports an error instead (EOF-style faults only on std::io::Write)");
-    let n = ctx.tier.pick(2_000, 60_000);
+    let n = ctx.tier.pick(20_000, 200_000);
     let scfg = ShapeCfg { depth: 3, ..ShapeCfg::default() };
     ctx.par_proptest(
         "writer",
@@ -353,7 +353,7 @@ pub fn run(ctx: &Ctx) {
         || (gen::arb_typed(scfg.clone(), ValCfg { max_len: 140, max_seq: 4 }), arb_sched()),
         |((s, v), sched), l| check_writer(s, v, sched, l),
     );
-    let n = ctx.tier.pick(1_200, 40_000);
+    let n = ctx.tier.pick(12_000, 120_000);
     ctx.par_proptest(
         "reader-random-trees",
         n,
